@@ -265,6 +265,83 @@ func ruleC13_3(c *Ctx) {
 			okEx = c.condAt(ig, false, ra.Block()) && org(gi.Common().Args[0]) == "fv:gitignorePatterns" && org(gi.Common().Args[1]) == "p0"
 		}
 	}
+	// the same two tests in an unexported skip predicate: hashing happens only where it answered false, and it answers
+	// false (with a nil error) only where GitIgnore(patterns, path) and info.IsDir() are both false
+	viaDir := false
+	for _, via := range allCalls(cb) {
+		h := via.Common().StaticCallee()
+		if h == nil || h.Blocks == nil || h.Pkg != outer.Pkg || h.Parent() != nil || h.Object() == nil || h.Object().Exported() {
+			continue
+		}
+		res := h.Signature.Results()
+		if res.Len() < 1 || !isBool(res.At(0).Type().Underlying()) {
+			continue
+		}
+		ans := resultN(via, 0)
+		if res.Len() == 1 {
+			ans = via.Value()
+		}
+		if ans == nil || !c.condAt(ans, false, ra.Block()) {
+			continue
+		}
+		argOrg := func(v ssa.Value) string {
+			if p, ok := resolve(v, nil).(*ssa.Parameter); ok && p.Parent() == h && paramIndex(p) < len(via.Common().Args) {
+				return org(via.Common().Args[paramIndex(p)])
+			}
+			return ""
+		}
+		falseImplies := func(target ssa.Value) bool {
+			rets := returnsOf(h)
+			if ei := errIndex(h); ei >= 0 {
+				rets = c.nilErrReturns(h)
+			}
+			if len(rets) == 0 {
+				return false
+			}
+			for _, r := range rets {
+				v := resolve(r.Results[0], r)
+				if v == target {
+					continue
+				}
+				if k, isK := v.(*ssa.Const); isK {
+					if k.Value != nil && k.Value.String() == "true" {
+						continue
+					}
+					if !c.condAt(target, false, r.Block()) {
+						return false
+					}
+					continue
+				}
+				if ph, isPhi := v.(*ssa.Phi); isPhi {
+					for i, e := range ph.Edges {
+						pb := ph.Block().Preds[i]
+						if k, isK := e.(*ssa.Const); isK && k.Value != nil && k.Value.String() == "true" {
+							continue
+						}
+						if e == target || c.condAt(target, false, pb) || edgeFact(pb, ph.Block(), target, false) {
+							continue
+						}
+						return false
+					}
+					continue
+				}
+				if !c.condAt(target, false, r.Block()) {
+					return false
+				}
+			}
+			return true
+		}
+		if hg := firstCall(h, "github.com/shibumi/go-pathspec.GitIgnore"); hg != nil && !okEx {
+			if ig := resultN(hg, 0); ig != nil && argOrg(hg.Common().Args[0]) == "fv:gitignorePatterns" && argOrg(hg.Common().Args[1]) == "p0" && falseImplies(ig) {
+				okEx = true
+			}
+		}
+		for _, call := range callsIn(h, "iface:os.FileInfo.IsDir") {
+			if argOrg(call.Common().Value) == "p1" && falseImplies(call.Value()) {
+				viaDir = true
+			}
+		}
+	}
 	c.check(okEx, R, fn, "(ii) excluded paths are skipped before hashing", ra.Pos(), "RecordArtifact only where GitIgnore(patterns, path) is false", "hashing is not guarded by the exclusion patterns")
 	// directories are not hashed
 	okDir := false
@@ -273,6 +350,7 @@ func ruleC13_3(c *Ctx) {
 			okDir = true
 		}
 	}
+	okDir = okDir || viaDir
 	c.check(okDir, R, fn, "directories are not hashed", ra.Pos(), "RecordArtifact only where info.IsDir() is false", "directories can reach RecordArtifact")
 	// (iii) directory symlinks only under followSymlinkDirs
 	sf := c.symlinkFrameOf(cb)
@@ -387,6 +465,44 @@ func ruleC13_3(c *Ctx) {
 					ko := org(mu.Key)
 					if strings.HasPrefix(ko, "path/filepath.ToSlash(key(in_toto.recordArtifacts(") && strings.HasSuffix(org(mu.Value), "#0{*}") {
 						okSlash = true
+					}
+				}
+			}
+		}
+		// ... or the same loop in an unexported helper that is handed the recorded map and whose result is returned
+		for _, via := range allCalls(pub) {
+			h := via.Common().StaticCallee()
+			if okSlash || h == nil || h.Blocks == nil || h.Pkg != pub.Pkg || h.Parent() != nil || h.Object() == nil || h.Object().Exported() {
+				continue
+			}
+			returned := false
+			for _, r := range returnsOf(pub) {
+				if len(r.Results) > 0 {
+					if pc, idx := producer(r.Results[0], r); pc == via && idx <= 0 {
+						returned = true
+					}
+				}
+			}
+			if !returned {
+				continue
+			}
+			for i, a := range via.Common().Args {
+				ao := org(a)
+				if !strings.HasPrefix(ao, "in_toto.recordArtifacts(") || !strings.HasSuffix(ao, "#0") || i >= len(h.Params) {
+					continue
+				}
+				for _, b := range h.Blocks {
+					for _, in := range b.Instrs {
+						mu, ok := in.(*ssa.MapUpdate)
+						if !ok || org(mu.Key) != fmt.Sprintf("path/filepath.ToSlash(key(p%d))", i) || org(mu.Value) != fmt.Sprintf("p%d{*}", i) {
+							continue
+						}
+						// the updated map is what the helper returns
+						for _, hr := range returnsOf(h) {
+							if len(hr.Results) == 1 && resolve(hr.Results[0], hr) == resolve(mu.Map, mu) {
+								okSlash = true
+							}
+						}
 					}
 				}
 			}
